@@ -291,7 +291,7 @@ pub fn gen_world(r: &mut Rng) -> Vec<Tree> {
                 (r.range(1, 4), r.below(12000), r.below(256))
             }
         };
-        let w: [u32; 20] = [14, 18, 16, 3, 3, 6, 5, 6, 5, 2, 2, 2, 3, 3, 3, 2, 8, 2, 2, 3];
+        let w: [u32; 21] = [14, 18, 16, 3, 3, 6, 5, 6, 5, 2, 2, 2, 3, 3, 3, 2, 8, 2, 2, 3, 4];
         match r.weighted(&w) {
             0 => {
                 // time passes for everybody (mostly), or for one endpoint only
@@ -374,6 +374,11 @@ pub fn gen_world(r: &mut Rng) -> Vec<Tree> {
                 for idx in [1u64, 2, 3] {
                     ops.push(l(vec![n(112u8), n(idx)]));
                 }
+            }
+            20 => {
+                // cross-use of challenges between sessions the attacker owns
+                let kc = r.below(nclients as u64);
+                ops.push(l(vec![n(155u8), n(k), n(kc), n(r.range(0, 300))]));
             }
             18 => {
                 // the attacker presents client k's request from its own address first
